@@ -30,3 +30,60 @@ Example C17_nonvacuous :
   normalize (reencode [1; 2; 0; 2] [97; 10; 98; 10; 10; 99; 0; 10]) = [97; 10; 98; 10; 10; 99; 65533; 10]
   /\ reencode [1; 2; 0; 2] [97; 10; 98; 10; 10; 99; 0; 10] = [97; 13; 10; 98; 13; 10; 10; 99; 0; 13].
 Proof. vm_compute. split; reflexivity. Qed.
+
+(* ---- structural tabs, top level: indentation columns ------------------------------------- *)
+From MD Require Import Model.StateBlock Lemmas.TabCols.
+
+(* For EVERY document made of lines  blanks ++ rest ++ LF  (blanks: spaces and tabs; rest empty or
+   starting with a non-blank, without line feed): the indentation column the block parser records
+   for each line (sCount) is the tab-stop column width of its blanks, tShift their number, and
+   lineMax the number of lines. *)
+Theorem C17_indent_is_column_width :
+  forall ls env toks, Forall line_wf ls ->
+    let st := state_init (doc_text ls) env toks in
+    b_sCount st = map (fun l => cols 0 (l_ws l)) ls ++ [0]
+    /\ b_tShift st = map (fun l => len (l_ws l)) ls ++ [0]
+    /\ b_lineMax st = len ls.
+Proof. exact init_columns. Qed.
+Print Assumptions C17_indent_is_column_width.
+
+(* hence any re-spelling of leading blanks that keeps each line's column - a tab for the spaces up
+   to the next multiple of four or the other way round - leaves the indentation table and the
+   line count unchanged *)
+Theorem C17_respelling_keeps_columns :
+  forall ls1 ls2 env1 toks1 env2 toks2,
+    Forall line_wf ls1 -> Forall line_wf ls2 ->
+    Forall2 (fun a b => cols 0 (l_ws a) = cols 0 (l_ws b)) ls1 ls2 ->
+    b_sCount (state_init (doc_text ls1) env1 toks1) = b_sCount (state_init (doc_text ls2) env2 toks2)
+    /\ b_lineMax (state_init (doc_text ls1) env1 toks1) = b_lineMax (state_init (doc_text ls2) env2 toks2).
+Proof. exact respell_same_columns. Qed.
+Print Assumptions C17_respelling_keeps_columns.
+
+Theorem C17_tab_expansion_keeps_columns :
+  forall ls env toks, Forall line_wf ls ->
+    b_sCount (state_init (doc_text (map expand_line ls)) env toks) = b_sCount (state_init (doc_text ls) env toks)
+    /\ b_lineMax (state_init (doc_text (map expand_line ls)) env toks) = b_lineMax (state_init (doc_text ls) env toks).
+Proof. exact expand_tabs_same_columns. Qed.
+Print Assumptions C17_tab_expansion_keeps_columns.
+
+Theorem C17_expansion_column_exact :
+  forall ws off, 0 <= off -> Forall blank ws ->
+    cols off (expand off ws) = cols off ws /\ Forall (fun c => c = 32) (expand off ws).
+Proof. intros ws off H F. exact (conj (cols_expand ws off H F) (expand_no_tab ws off F)). Qed.
+Print Assumptions C17_expansion_column_exact.
+
+(* a concrete document: "\tfoo" / " \t bar" / blank / "x" *)
+Example C17_columns_apply :
+  let ls := [mkLine [9] [102; 111; 111]; mkLine [32; 9; 32] [98; 97; 114]; mkLine [32; 32] []; mkLine [] [120]] in
+  Forall line_wf ls /\ b_sCount (state_init (doc_text ls) env0 []) = [4; 5; 2; 0; 0].
+Proof.
+  cbv zeta. split; [|vm_compute; reflexivity].
+  assert (B32 : blank 32) by (left; reflexivity). assert (B9 : blank 9) by (right; reflexivity).
+  constructor; [|constructor; [|constructor; [|constructor; [|constructor]]]].
+  - split; [repeat constructor; assumption|]. right. exists 102, [111; 111].
+    split; [reflexivity|]. split; [reflexivity|]. split; [discriminate|]. intros x [<-|[<-|[]]]; discriminate.
+  - split; [repeat constructor; assumption|]. right. exists 98, [97; 114].
+    split; [reflexivity|]. split; [reflexivity|]. split; [discriminate|]. intros x [<-|[<-|[]]]; discriminate.
+  - split; [repeat constructor; assumption|]. left. reflexivity.
+  - split; [constructor|]. right. exists 120, []. split; [reflexivity|]. split; [reflexivity|]. split; [discriminate|]. intros x [].
+Qed.
